@@ -17,7 +17,8 @@
 //!   `pubx <signer> <pathkey> <zonekey> <addrs> <ud>` hand-made packet with the same TXT strings at
 //!        `_iroh.<z32 zonekey>`, signed by #signer, PUT under #pathkey
 //!   `res <idkey> <e|r>`                 TXT query `_iroh.<z32>.<origin>` through the DNS handler, then
-//!        `EndpointInfo::from_txt_lookup(name, answers)` → `ok(id=..;a=<sorted>;ud=..)` | `err:<Class>` | `nxdomain`
+//!        `EndpointInfo::from_txt_lookup(name, answers)` (answers = the resolver's `TxtRecordData` of the
+//!        hickory-parsed response, as in `HickoryResolver::lookup_txt`) → `ok(id=..;a=<sorted>;ud=..)` | `err:<Class>` | `nxdomain`
 //!   addrs = `~` | `r:<hex url>,i:<hex socket addr>,c:<hex custom addr>` (canonical text), ud = `~` | hex
 use std::{collections::{BTreeMap, BTreeSet}, net::SocketAddr, str::FromStr};
 
@@ -262,19 +263,26 @@ async fn resolve(core: &Core, z: &str, origin: &str) -> (String, Option<(String,
     let Ok(resp) = core.dns_query(&q.build_bytes_vec().expect("query")).await else {
         return ("handler-error".into(), None);
     };
-    let Ok(p) = Packet::parse(&resp) else { return ("unparsable-response".into(), None) };
-    let strings: Vec<String> = p
+    // the resolver's record data, built exactly as `HickoryResolver::lookup_txt` does:
+    // `TxtRecordData::from(txt.txt_data.to_vec())` per TXT record of the hickory-parsed response
+    use iroh_dns_server::verif_hooks::hickory_server::proto::{
+        op::{Message, ResponseCode},
+        rr::RData as HRData,
+        serialize::binary::BinDecodable,
+    };
+    let Ok(msg) = Message::from_bytes(&resp) else { return ("unparsable-response".into(), None) };
+    let records: Vec<iroh_dns::dns::TxtRecordData> = msg
         .answers
         .iter()
-        .filter_map(|a| match &a.rdata {
-            RData::TXT(t) => String::try_from(t.clone()).ok(),
+        .filter_map(|a| match &a.data {
+            HRData::TXT(t) => Some(iroh_dns::dns::TxtRecordData::from(t.txt_data.to_vec())),
             _ => None,
         })
         .collect();
-    if p.rcode() != RCODE::NoError || strings.is_empty() {
+    if msg.metadata.response_code != ResponseCode::NoError || records.is_empty() {
         return ("nxdomain".into(), None);
     }
-    match EndpointInfo::from_txt_lookup(name, strings.iter()) {
+    match EndpointInfo::from_txt_lookup(name, records.iter()) {
         Err(e) => (format!("err:{}", parse_class(&e)), None),
         Ok(info) => {
             let mut a: Vec<String> = info.addrs().map(addr_token).collect();
@@ -330,8 +338,17 @@ impl Prop for C36 {
                 }
                 texts.extend(addrs.iter().map(addr_text));
                 let a = if addrs.is_empty() { "~".to_string() } else { addrs.iter().map(addr_token).collect::<Vec<_>>().join(",") };
-                let ud = match rng.below(4) {
+                let ud = match rng.below(6) {
                     0 => "~".to_string(),
+                    4 | 5 => {
+                        // exactly UserData::MAX_LENGTH (245) bytes, or 1–2 less, ending in a 2-/3-/4-byte
+                        // character: the TXT string `user-data=…` is 255/254/253 bytes long
+                        let last = *rng.pick(&["\u{e9}", "\u{20ac}", "\u{1F600}"]);
+                        let total = 245 - rng.below(3) as usize;
+                        let mid = if rng.bool() { "\u{e9}" } else { "" };
+                        let fill = total - last.len() - mid.len();
+                        hs(&format!("{}{mid}{last}", "u".repeat(fill)))
+                    }
                     1 => hs("k=v=w"),
                     2 => hs(&"u".repeat(rng.range(1, 245) as usize)),
                     _ => hs(&format!("ud{}", rng.below(100))),
@@ -379,6 +396,23 @@ impl Prop for C36 {
                     }
                 }
             }
+            // names that contain another published key's label NOT adjacent to the origin: they lie in
+            // the zone of the key next to the origin, whatever else the name contains
+            let mut nested: Vec<String> = Vec::new();
+            for k1 in 0..nkeys as usize {
+                for k2 in 0..nkeys as usize {
+                    if k1 == k2 {
+                        continue;
+                    }
+                    for origin in ["", ".irohdns.example"] {
+                        for t in ["TXT", "A"] {
+                            nested.push(format!("q _iroh.{}.{}{origin} {t}", zs[k1], zs[k2]));
+                            nested.push(format!("q {}.{}{origin} {t}", zs[k1], zs[k2]));
+                            nested.push(format!("q x.{}.y.{}{origin} {t}", zs[k1], zs[k2]));
+                        }
+                    }
+                }
+            }
             all_queries.push(format!("q _t.{bad_label}.irohdns.example TXT"));
             all_queries.push(format!("q _t.{} TXT", &zs[0][..40]));
             all_queries.push("q foo.bar TXT".into());
@@ -405,7 +439,10 @@ impl Prop for C36 {
                 for _ in 0..nrec {
                     let rest = *rng.pick(&rests);
                     let zone_label = if rng.chance(1, 6) { zs[si].to_ascii_uppercase() } else { zs[si].clone() };
-                    let name = match rng.below(10) {
+                    let name = match rng.below(13) {
+                        10 => format!("_iroh.{}.{zone_label}", zs[other]),       // `_iroh.<other key>` inside own zone
+                        11 => format!("x.{}.y.{zone_label}", zs[other]),
+                        12 => format!("_iroh.{zone_label}"),                     // the ordinary `_iroh` record
                         0 => join(rest, &zs[other]),                            // another key's zone
                         1 => join(rest, "example"),                             // no key label at all
                         2 => if rest.is_empty() { "x".to_string() } else { rest.to_string() },
@@ -422,6 +459,9 @@ impl Prop for C36 {
                 ops.push(format!("put {label} {signer} {mode} {ts} {id} {dnslen} {recs}"));
                 for _ in 0..rng.range(0, 4) {
                     ops.push(rng.pick(&all_queries).clone());
+                }
+                if rng.chance(1, 2) {
+                    ops.push(rng.pick(&nested).clone());
                 }
                 if rng.chance(1, 3) {
                     ops.push(format!("get {}", rng.pick(&zs)));
@@ -442,6 +482,9 @@ impl Prop for C36 {
             let nq = rng.range(20, 60) as usize;
             rng.shuffle(&mut all_queries);
             ops.extend(all_queries.into_iter().take(nq));
+            rng.shuffle(&mut nested);
+            let nn = nested.len().min(rng.range(8, 24) as usize);
+            ops.extend(nested.into_iter().take(nn));
             out.push(ops.join(";"));
         }
     }
@@ -610,8 +653,13 @@ impl Prop for C36 {
                         let (rcode, answers) = query(&core, name, ty).await;
                         // oracle: every answered record was published, signed by the key of the
                         // zone it is served under, inside that zone, and is not SOA/NS
+                        let qn = name.trim_end_matches('.').to_ascii_lowercase();
                         for a in &answers {
-                            let n = a.name.trim_end_matches('.');
+                            // the answer belongs to the queried name: its zone is the key label next to the origin
+                            let n = qn.as_str();
+                            if a.name.trim_end_matches('.') != n && !(*ty == "SOA" && a.ty == "SOA") {
+                                ex.violation("answer-for-another-name", format!("`{op}` answered {a:?}"));
+                            }
                             let (stem, origin) = match n.strip_suffix(".irohdns.example") {
                                 Some(s) => (s, ".irohdns.example"),
                                 None => (n, ""),
@@ -620,7 +668,7 @@ impl Prop for C36 {
                             let owner = keys.iter().find(|(_, z)| z == zl);
                             // the server's own static SOA (configuration, first origin) answers
                             // every SOA query; it is not derived from any packet
-                            if *ty == "SOA" && a.ty == "SOA" && n == "irohdns.example" && a.tag == 0 {
+                            if *ty == "SOA" && a.ty == "SOA" && a.name.trim_end_matches('.') == "irohdns.example" && a.tag == 0 {
                                 continue;
                             }
                             if a.ty == "SOA" || a.ty == "NS" {
